@@ -1525,6 +1525,8 @@ class SymEval:
                 return sp.im(base)
             if attr in ('conjugate', 'conj'):
                 return lambda: sp.conjugate(base)
+            if attr in ('tolist', 'item'):       # a numpy scalar: the plain Python number
+                return lambda: base
             if attr == 'shape':
                 return ()
             if attr == 'ndim':
